@@ -31,3 +31,4 @@ def run(chk, tier, seed, replay):
     with tlc.Scratch("c12") as s:
         for nv in (2, 3, 4):
             run_cases(chk, "gmrf_nv%d" % nv, "MC_GMRF", "MC_GMRF_b%d.cfg" % nv, s, gad.run_case, parallel=(nv == 4))
+        run_cases(chk, "gmrf_k2", "MC_GMRF", "MC_GMRF_k2.cfg", s, gad.run_case)
